@@ -5,7 +5,7 @@ same tree in different configurations; every one must return what the reference 
 import os
 from harness import Test, Sweep
 
-RULE = ("the generators and model oracles of C01/C02/C03/C05/C06/C13 re-run on executors built as: rel (gcc -O3 NDEBUG), relfast (+SAFE_FAST), O0, O2a (-O2, asserts on), clangO2, w32rel (32-bit words, -O2 NDEBUG), w32fast (32-bit words + SAFE_FAST), "
+RULE = ("the generators and model oracles of C01/C02/C03/C05/C06/C13 (and the in-configuration differentials of C10/C11) re-run on executors built as: rel (gcc -O3 NDEBUG), relfast (+SAFE_FAST), O0, O2a (-O2, asserts on), clangO2, w32rel (32-bit words, -O2 NDEBUG), w32fast (32-bit words + SAFE_FAST), "
         "bash32/bashsse2/bashavx2/bashavx512 (bash-f platform variants, for every bash/brng-free case); a case is non-trivial by the rule of its home property; identical outputs follow from equality with the same model value")
 LEVEL = "exploration"
 ASSUMPTIONS = ["compiler flags/versions form an open set: gcc 12 and clang 14 at four optimisation levels are sampled", "big-endian and NEON code paths cannot be executed in this sandbox",
@@ -31,4 +31,9 @@ def tests(tier):
     take(c02, "c02", {"sign"}, ("rel", "relfast", "w32rel", "clangO2"), 0.12)
     take(c06, "c06", {"mul"}, ("rel", "relfast", "O0", "w32rel", "clangO2"), 0.3)
     take(c13, "c13", {"share"}, ("rel", "w32rel", "relfast", "clangO2"), 0.1)
+    # in-configuration differentials (overlapped vs disjoint placement, chunked vs one-shot): the same verdict must come out with asserts on
+    # (O0 / O2a: a library ASSERT that fires on an admissible call is a difference between the debug and the release build) and off
+    from props import c10, c11
+    take(c11, "c11", {"overlap"}, ("O2a", "rel", "w32rel", "relfast"), 0.08)
+    take(c10, "c10", {"cipher", "mac", "aead", "misc"}, ("O2a", "w32rel", "relfast"), 0.05)
     return out
